@@ -61,5 +61,20 @@ func contend(spec contendSpec) {
 			bad[fmt.Sprint(i)] = c
 		}
 	}
-	json.NewEncoder(os.Stdout).Encode(map[string]interface{}{"keys": len(contendCount), "not_once": bad})
+	// two instantiations of one generic function are two different functions (known finding F23:
+	// runtime.FuncForPC names both "main.genericDep[...]")
+	mg.Deps(genericDep[int], genericDep[string])
+	json.NewEncoder(os.Stdout).Encode(map[string]interface{}{"keys": len(contendCount), "not_once": bad,
+		"generic_runs": []int32{atomic.LoadInt32(&genericRuns[0]), atomic.LoadInt32(&genericRuns[1])}})
+}
+
+var genericRuns [2]int32
+
+func genericDep[T any]() {
+	var z T
+	if _, ok := interface{}(z).(int); ok {
+		atomic.AddInt32(&genericRuns[0], 1)
+	} else {
+		atomic.AddInt32(&genericRuns[1], 1)
+	}
 }
